@@ -1,4 +1,5 @@
 import SSVerif.Proofs.JsonRoundTrip
+set_option linter.unusedSimpArgs false
 /-! C14 helper lemmas: the compact print of a well-formed value contains no NUL byte -/
 namespace SSVerif.Json
 
